@@ -1,7 +1,7 @@
 package main
 
 func init() {
-	props["C09"] = cfg("./c09", true, withAssume(
+	props["C09"] = cfg("./c09", true, withShards(3, 16), withAssume(
 		"only the sampled bit of a new span's trace flags is asserted; other flag bits are not",
 		"a parent span context with a valid trace ID but a zero span ID may or may not be treated as a parent (trace ID inherited or fresh; ParentBased dispatch not asserted)",
 		"the stock samplers' tracestate passthrough is asserted for valid parents only",
